@@ -229,6 +229,57 @@ def mk_iterative3(qa, qb, n_inter):
     return body
 
 
+def mk_two_copies(name, lo):
+    """a micro-structure and a copy of it (chain B) shifted by a symbolic
+    D = k/1000 along x: every group of either copy gets the results of the
+    single-copy run"""
+    def body(ctx):
+        from . import micro as M
+        from .c04 import with_hydrogens_text
+        # hydrogens are supplied (the program's own, keep-protons) so that the
+        # separation can be a real number: all queries stay in QF_NRA in one variable
+        txt = with_hydrogens_text(name)
+        copy = ''.join((l[:21] + 'B' + l[22:] + '\n') if l.startswith('ATOM') else (l + '\n') for l in txt.split('\n') if l)
+        # the statement needs 25 A between nearest atoms: shift = extent along x + the stated gap
+        xs = [float(l[30:38]) for l in txt.split('\n') if l.startswith('ATOM')]
+        ext = max(xs) - min(xs)
+        D = ctx.real('separation', lo + ext, lo + ext + 2.509)
+
+        def tr(a):
+            if a.chain_id == 'B':
+                a.x = a.x + D
+        base = _base_run(name)
+        both = M.run(txt + copy, args=['--keep-protons'], transform=tr)
+        gb = M.groups(base)
+        g2 = M.groups(both)
+        for (lab, typ), lst in gb.items():
+            for chain in 'AB':
+                lab2 = lab[:-1] + chain
+                ctx.claim('group-present-in-both-copies', (lab2, typ) in g2 and len(g2[(lab2, typ)]) == len(lst), detail=lab2)
+                if (lab2, typ) not in g2:
+                    continue
+                for a, b in zip(lst, g2[(lab2, typ)]):
+                    ctx.claim('desolvation-as-alone', And(eq(a.energy_volume, b.energy_volume), eq(a.num_volume, b.num_volume), eq(a.buried, b.buried)), detail=lab2)
+                    ctx.claim('pka-as-alone', eq(a.pka_value, b.pka_value), detail='%s: %r vs %r' % (lab2, a.pka_value, b.pka_value))
+                    for kind in KINDS:
+                        da = [(d.label[:-1], d.value) for d in a.determinants[kind]]
+                        db = [(d.label[:-1], d.value) for d in b.determinants[kind]]
+                        ctx.claim('determinants-as-alone', len(da) == len(db) and all(x[0] == y[0] and bool(eq(x[1], y[1])) for x, y in zip(da, db)),
+                                  detail='%s %s: %r vs %r' % (lab2, kind, da, db))
+    return body
+
+
+_BASE = {}
+
+
+def _base_run(name):
+    from . import micro as M
+    if name not in _BASE:
+        from .c04 import with_hydrogens_text
+        _BASE[name] = M.run(with_hydrogens_text(name), args=['--keep-protons'])
+    return _BASE[name]
+
+
 def obligations(tier):
     E = 'propka/energy.py:'
     D = 'propka/determinants.py:'
@@ -263,6 +314,14 @@ def obligations(tier):
                                      'H-bond value in [0,1.7], Coulomb value in [0,2.1]; every number of sweeps the other cluster needs (<= 10)',
                               claim_doc='determinants of cluster A in the joint run == cluster A alone', max_paths=20000,
                               wall_s=170 if tier == 'quick' else 1200, query_timeout_ms=20000))
+    seps = [25.0, 997.5] if tier == 'quick' else [25.0, 27.5, 100.0, 997.5, 1000.0, 5000.0, 9950.0]
+    for name in (['tri_ASP'] if tier == 'quick' else ['tri_ASP', 'pair_GLU_ARG_TYR', 'pair_ASP_ARG', 'tri_HIS']):
+        for lo in seps:
+            obs.append(Obligation('O3-two-copies[%s,D>=%g]' % (name, lo), mk_two_copies(name, lo),
+                                  code=['propka/run.py:single (whole pipeline)', 'propka/calculations.py:get_smallest_distance', D + 'set_backbone_determinants', E + 'radial_volume_desolvation'],
+                                  bounds='%s (with the program\'s own hydrogens, keep-protons) plus a copy in chain B shifted along x so that the gap between nearest atoms is a real number in [%g, %g]' % (name, lo, lo + 2.509),
+                                  claim_doc='no exception; every group of either copy has the desolvation, pKa and determinants of the single-copy run',
+                                  max_paths=5000, wall_s=170 if tier == 'quick' else 1200, shards=6))
     three = [((-1, -1, 1), (-1, 1), 2)] if tier == 'quick' else [((-1, -1, 1), (-1, 1), 2), ((-1, 1, 1), (-1, -1), 2), ((-1, -1, -1), (1, 1), 2), ((-1, -1, 1), (-1, 1), 3)]
     for qa, qb, ni in three:
         obs.append(Obligation('O2-iterative-clusters-3+2[A=%s,B=%s,%d interactions]' % (''.join('%+d' % q for q in qa), ''.join('%+d' % q for q in qb), ni),
@@ -276,6 +335,5 @@ def obligations(tier):
 MANIFEST_ENTRY = {
     'level_note': ('Cut-off lemmas with one symbolic far atom/group each, over the whole PDB coordinate range; closest-pair search over the whole '
                    'range; iterative solver: two disjoint 2-group clusters with all values symbolic, joint run compared with the cluster alone '
-                   '(covers every number of extra sweeps up to the cap of 10). Whole-pipeline two-copy runs with symbolic separation are part of '
-                   'the micro-structure obligations (O3, thorough). Larger clusters and more than two clusters are outside the bound.'),
+                   '(covers every number of extra sweeps up to the cap of 10). O3: whole pipeline on a micro-structure plus a copy at symbolic separation (25 A, ~1000 A quick; up to 9950 A thorough). Larger clusters and more than two clusters are outside the bound.'),
 }
